@@ -319,7 +319,9 @@ Tensor softmax(const Tensor &x, std::uint32_t dim) {
 
 template<>
 Tensor softmax_cross_entropy(const Tensor &x, const Tensor &t, std::uint32_t dim) {
-  return -sum(t * log_softmax(x, dim), dim);
+  // NOTE: elementwise product (no scalar dispatch): `t` must have the dimensions
+  // of `x`, exactly as the Node version requires.
+  return -sum(t.device().multiply_fw(t, log_softmax(x, dim)), dim);
 }
 
 template<>
